@@ -146,6 +146,17 @@ def build_op(spec: dict, positions: List[List[float]], chops: List[List[List]]):
             op.top_face.add_edge(i, edge)
         else:
             op.add_side_edge(i, edge)
+    if spec.get("bad"):
+        # edge data `factory.create` raises on when the mesh is assembled (an arc of angle 0)
+        slot = spec["bad"]
+        edge = cb.Angle(0.0, [0.0, 0.0, 1.0])
+        i = int(slot[1])
+        if slot[0] == "b":
+            op.bottom_face.add_edge(i, edge)
+        elif slot[0] == "t":
+            op.top_face.add_edge(i, edge)
+        else:
+            op.add_side_edge(i, edge)
     for axis, chs in enumerate(chops):
         for ratio, count in chs:
             if isinstance(count, dict):
@@ -289,8 +300,8 @@ class C12(core.Check):
         "theorems are about the state machine CBV.C12 (rational coordinates with %.8f rendering, arc / spline / polyLine / project edges, "
         "entities, geometry list, statements of clear / backport / write tied to the source by ast); vertex identity is exact equality "
         "of coordinates (implementation: within TOL), chops are count-only on every axis, origin / angle / curve edges, size-based or "
-        "graded chops, propagation and an exception inside assemble() are outside the model and only covered by the byte-for-byte "
-        "oracle on the generated histories"
+        "graded chops and propagation are outside the model and only covered by the byte-for-byte oracle on the generated "
+        "histories; an exception inside assemble() is modelled for invalid edge data only"
     )
 
     # ------------------------------------------------------------------ generators
@@ -545,6 +556,53 @@ class C12(core.Check):
                 steps += [["wr"]]
         return {"kind": "sized", **model, "steps": steps}
 
+    def _exc_case(self, rng: random.Random) -> dict:
+        """One operation carries edge data `factory.create` raises on: assemble() / write() / backport() are left in the
+        middle; afterwards the operation is deleted and the mesh is cleared and assembled again (recovery)."""
+        model = self._model(rng, rng.randint(2, 4))
+        n = len(model["ops"])
+        bad = rng.randrange(n)
+        spec = model["ops"][bad]
+        free = [sl for sl in SLOTS if sl not in spec.get("arcs", {}) and sl not in spec.get("curved", {})]
+        spec["bad"] = rng.choice(free)
+        if bad > 0 and rng.random() < 0.4:
+            # the invalid data sits on an edge an earlier operation has already defined (an arc): EdgeList.add finds that
+            # edge first and never creates the invalid one — nothing is raised
+            pos_b = corner_positions(spec)
+            done = False
+            for sl in free:
+                ends = {fmt(pos_b[c]) for c in SLOT_CORNERS[sl]}
+                for a_spec in model["ops"][:bad]:
+                    if a_spec.get("bad"):
+                        continue
+                    pos_a = corner_positions(a_spec)
+                    for sa in SLOTS:
+                        if {fmt(pos_a[c]) for c in SLOT_CORNERS[sa]} == ends and sa not in a_spec.get("curved", {}):
+                            c1, c2 = SLOT_CORNERS[sa]
+                            mid = [(pos_a[c1][d] + pos_a[c2][d]) / 2 for d in range(3)]
+                            along = max(range(3), key=lambda d: abs(pos_a[c1][d] - pos_a[c2][d]))
+                            mid[(along + 1) % 3] += model["frame"][1] * 0.0703125
+                            a_spec.setdefault("arcs", {})[sa] = [round(x, 6) for x in mid]
+                            spec["bad"] = sl
+                            done = True
+                            break
+                    if done:
+                        break
+                if done:
+                    break
+        ents = model["entities"]
+        steps: List[list] = [["add", e] for e in range(len(ents))]
+        k = rng.randrange(4)
+        if k == 0:
+            steps += [["asm"], ["wr"], ["del", bad], ["clr"], ["asm"], ["wr"], ["wr"]]
+        elif k == 1:
+            steps += [["wr"], ["wr"], ["del", bad], ["clr"], ["wr"], ["bkp"], ["wr"]]
+        elif k == 2:
+            steps += [["mod", "pa", "wall", ["k v"]], ["asm"], ["clr"], ["asm"], ["del", bad], ["wr"], ["clr"], ["wr"]]
+        else:
+            steps += [["del", bad], ["asm"], ["wr"], ["again" if False else "mv", 3, [round(model["frame"][0][d] + model["frame"][1] * (2.6 + 0.1 * d), 6) for d in range(3)]], ["bkp"], ["wr"]]
+        return {"kind": "exc", **model, "steps": steps}
+
     def gen_cases(self, rng: random.Random, tier: str) -> List[dict]:
         n = 220 if tier == "quick" else 3000
         cases = []
@@ -558,6 +616,9 @@ class C12(core.Check):
         # cell counts that follow from edge lengths: write, move vertices, write again (oracle only, no model)
         for _ in range(20 if tier == "quick" else 300):
             cases.append(self._sized_case(rng))
+        # an exception inside assemble(): state left behind (model) and recovery by delete + clear + assemble (fresh-mesh oracle)
+        for _ in range(16 if tier == "quick" else 200):
+            cases.append(self._exc_case(rng))
         # rejected calls / boundary
         for _ in range(12 if tier == "quick" else 120):
             model = self._model(rng, rng.randint(1, 3))
@@ -637,7 +698,10 @@ class C12(core.Check):
                 elif st[0] == "del":
                     mesh.delete(get_op(st[1]))
                 elif st[0] == "asm":
-                    mesh.assemble()
+                    try:
+                        mesh.assemble()
+                    except ValueError as e:
+                        o = {"err": type(e).__name__}
                 elif st[0] == "clr":
                     mesh.clear()
                 elif st[0] == "bkp":
@@ -732,6 +796,8 @@ class C12(core.Check):
         moves: Dict[int, List[float]] = {}  # vertex index -> position it was moved to since the last assembly
         dup = False  # the same object added twice (sticky)
         twice = False  # assembled twice without clear (until the next clear / backport)
+        broken = False  # an assemble() was left by an exception: partial lists until the next clear
+        bad_ops = {i for i, sp in enumerate(specs) if sp.get("bad")}
         mods: Dict[str, list] = {}
         dflt = None
         merges: List[list] = []
@@ -750,10 +816,17 @@ class C12(core.Check):
                 keys.append((fmt(pos[i][c]), tuple(sorted(x for x in at if x in slaves))))
             return keys
         for st, o in zip(case["steps"], obs):
-            weird_before = dup or twice
+            weird_before = dup or twice or broken
 
             def do_assemble():
-                nonlocal asm_ops, assembled, pending, n_vertices
+                nonlocal asm_ops, assembled, pending, n_vertices, broken
+                if any(i in bad_ops for i in depot if i not in deleted):
+                    # whether it raised and what is left behind is the implementation's word here (the correspondence checks
+                    # both against the model); the oracle clauses are suspended until the next clear()
+                    broken = True
+                    assembled = True
+                    pending = False
+                    return
                 asm_ops = [i for i in depot if i not in deleted]
                 assembled = len(asm_ops) > 0
                 pending = False
@@ -769,7 +842,9 @@ class C12(core.Check):
                 deleted.add(st[1])
                 pending = pending or assembled
             elif st[0] == "asm":
-                if assembled:
+                if broken:
+                    pass
+                elif assembled:
                     # assemble() does not clear: blocks are created once more on top of the existing ones
                     twice = True
                     asm_ops = asm_ops + [i for i in depot if i not in deleted]
@@ -777,7 +852,7 @@ class C12(core.Check):
                 else:
                     do_assemble()
             elif st[0] == "clr":
-                assembled, asm_ops, moves, pending, twice = False, [], {}, False, False
+                assembled, asm_ops, moves, pending, twice, broken = False, [], {}, False, False, False
             elif st[0] == "mrg":
                 merges.append([st[1], st[2]])
                 pending = pending or assembled
@@ -802,6 +877,12 @@ class C12(core.Check):
                 if isinstance(o, dict) and "moved" in o:
                     moves[o["index"]] = list(moves.get(o["onto"], o["to"]))
             elif st[0] == "bkp":
+                if isinstance(o, dict) and o.get("err") == "ValueError":
+                    # depot updated, lists cleared, then the final assemble() was left by the exception
+                    moves = {}
+                    twice = False
+                    broken = True
+                    assembled = True
                 if isinstance(o, dict) and "ok" in o:
                     # expected: corners of the operations that have a block follow the moved vertices
                     if weird_before:
@@ -817,6 +898,7 @@ class C12(core.Check):
                                 pos[i] = [list(moves.get(v, pos[i][c])) for c, v in enumerate(vidx)]
                     moves = {}
                     twice = False
+                    broken = False
                     do_assemble()
             elif st[0] == "wr":
                 if not assembled:
@@ -827,7 +909,8 @@ class C12(core.Check):
                     "pending": pending,
                     "moved": bool(moves),
                     "moves": {k: list(v) for k, v in moves.items()},
-                    "weird": dup or twice,
+                    "weird": dup or twice or broken,
+                    "broken": broken,
                     "weird_before": weird_before,
                     "pos": {i: [list(p) for p in ps] for i, ps in pos.items()},
                     "depot": list(depot),
@@ -938,6 +1021,8 @@ class C12(core.Check):
             cu = spec.get("curved", {})
 
             def edge_field(slot: str) -> str:
+                if spec.get("bad") == slot:
+                    return "invalid"
                 if slot in ar:
                     return "arc:" + self._pt(ar[slot])
                 if slot in cu:
@@ -1018,7 +1103,7 @@ class C12(core.Check):
         toks += sec("mergePatchPairs", ms)
         return "\t".join(toks)
 
-    ERR = {"RuntimeError": "err:notAssembled", "UndefinedGradingsError": "err:undefined"}
+    ERR = {"RuntimeError": "err:notAssembled", "UndefinedGradingsError": "err:undefined", "ValueError": "err:create"}
 
     def compare(self, case: dict, impl: Any, model: List[str]) -> Optional[str]:
         loc, arcs = self._tables(case, impl)
@@ -1054,6 +1139,10 @@ class C12(core.Check):
                     want = a
                 if a != want:
                     return f"call {n} (backport): implementation {want[:500]} / model {a[:500]}"
+            elif st[0] == "asm":
+                want = self.ERR.get(o["err"], "err:" + o["err"]) if isinstance(o, dict) and "err" in o else "."
+                if a != want:
+                    return f"call {n} (assemble): implementation {want} / model {a}"
             elif a != ".":
                 return f"call {n} ({st[0]}): model observation {a}"
         return None
@@ -1110,7 +1199,7 @@ class C12(core.Check):
         since: List[str] = []  # calls since then
         for n, (st, o, sh) in enumerate(zip(steps, obs, shadow)):
             if st[0] == "bkp" and isinstance(o, dict):
-                if "err" in o and (shadow[n - 1]["assembled"] if n else False):
+                if "err" in o and (shadow[n - 1]["assembled"] if n else False) and not sh.get("broken"):
                     out.append({"site": "Mesh.backport:raises-on-assembled-mesh", "what": f"call {n}: {o['err']}"})
                 if "ok" in o and not sh["weird_before"]:
                     for i, want in sh["pos"].items():
@@ -1138,7 +1227,7 @@ class C12(core.Check):
                 continue
             if "err" in o:
                 # a write may only fail when there is nothing to grade or chops are missing
-                expect_fail = (not sh["assembled"]) or any("nochop" in s for s in case["ops"])
+                expect_fail = (not sh["assembled"]) or any("nochop" in s for s in case["ops"]) or sh.get("broken")
                 if not expect_fail:
                     site = "Mesh.write:second-write-raises" if last_text is not None and not since else "Mesh.write:raises"
                     out.append({"site": site, "what": f"call {n}: {o['err']} after {since}", "observed": o["err"]})
